@@ -31,6 +31,18 @@ T = {
  "C12": ("model_checking", "3 (C12)", "explicit-state BFS over access histories with a state invariant relating backing memory, resident blocks and the logical contents",
          "Invariant evaluated after every transition of the C03 history space (rejected accesses included) and on the closed constant-data control spaces, observing only wordwise_repr(), cache_repr() and get_data_memory_entries().",
          "Same bounds and key as C03."),
+ "C04": ("exploration", "3 (C04)", "bounded-exhaustive enumeration of source texts generated from an abstract-program grammar, assembled by the real parser and compared with the instruction list computed from the abstract program; deviation-bounded spelling variants; pseudo groups executed on the golden model",
+         "Every sequence of up to 2 items over 14 expansion classes (3 over the five size classes; 3 over all and 4 over the size classes in thorough) x label placements x referenced labels x offsets x segment framings; every mnemonic in every documented operand form; every single spelling deviation (33 register names x positions, case, radix, whitespace, comments); every pseudo-instruction group run on the golden model from arbitrary registers.",
+         "'Well-formed' = generated by this grammar. Pseudo groups are compared with the group the assembler emits for the pseudo-instruction on its own (the property fixes effect and position-independence, not the expansion)."),
+ "C05": ("exploration", "3 (C05)", "bounded-exhaustive enumeration of data segments and li constants, assembled and executed on the real simulator against a reference layout",
+         "Every sequence of up to 2 (3) declarations over 16 shapes in both segment orders with la / load / store by name on every element and one past the end; byte image, registers after running, memory after stores and memory-table rows compared with the reference layout; li for all 4096 low-12-bit patterns x 8 boundary upper parts in 3 (4) spellings, executed.",
+         "Upper parts of li constants from a boundary set; length-3 sequences over an 8-shape subset in quick."),
+ "C14": ("exploration", "3 (C14)", "exhaustive enumeration of instruction objects per operand field (all 4096 immediates, all registers, all 4096 addresses for pc-relative forms), printed and re-assembled by the real parser",
+         "Instruction objects built with the public constructors, printed with repr and re-assembled in 4096-line batches: class and every field compared; all 12-bit immediates for 15 mnemonics, all even 13-bit immediates for 6 branches, all shift amounts, all csr numbers, jal at every instruction address; listing fixed point for the C04 corpus.",
+         "U-type and J-type immediates complete only in thorough; R-type register triples complete only in thorough."),
+ "C15": ("fault_enumeration", "3 (C15)", "exhaustive single-fault injection over every token position of a base corpus x a fault alphabet, exhaustive token soups, capacity boundaries, and all faulting programs of a bounded program space",
+         "Every token of 12 RISC-V and 6 TOY base programs x 49 faults (pairs in thorough), every line of up to 3 (4) tokens over a 14-token vocabulary in three contexts, does-not-fit inputs at the exact boundaries, every faulting or misaligned program up to length 3 over the hazard alphabet in both modes with and without a data cache; outcome classified by exception type, line number validity, faulting address / printed instruction and the front end's get_last_error().",
+         "10 s watchdog per load decides termination; fault alphabet and vocabulary are fixed lists."),
  "C06": ("exploration", "3 (C06)", "exhaustive enumeration of all 2^16 instruction words and of all programs up to a length bound on the real TOY simulation against a reference accumulator machine",
          "All 65 536 words x boundary accu/cell values executed by one real step; every program up to length 3 (4) over a 40-word self-modification alphabet stepped to a horizon; 4096-word programs across the pc wrap; accu, pc, instruction register, whole memory, cycles and counts compared after every step.",
          "Simulations are built from word lists as the assembler leaves them (validated against load_program at start-up); horizon 60 steps."),
